@@ -112,6 +112,10 @@ def gen_cases(tier, seed):
     # a resource without fields (all of them deleted) still has rows - empty mappings - and is followed by others
     for i in range({'quick': 4, 'thorough': 24}[tier]):
         yield {'family': 'fieldless_resource', 'idx': 3 * 10 ** 6 + i, 'seed': seed}
+    # the DEFAULT checkpoint location ('.checkpoints' of the current directory - the process changed directory after importing
+    # dataflows, as every case here does): removing it there makes the next run compute again
+    for i in range(2):
+        yield {'family': 'default_path', 'idx': 6 * 10 ** 6 + i, 'seed': seed}
     # checkpoint(resources=...): the run that saves and the run that resumes return the same (selected) resources
     for i in range({'quick': 6, 'thorough': 30}[tier]):
         yield {'family': 'selected_resources', 'idx': 5 * 10 ** 6 + i, 'seed': seed}
@@ -292,6 +296,51 @@ def run_fieldless(case):
                 cov={'value_class': {}, 'history': {'fieldless_resource/%s' % position: 1}}, sample={'config': cfg})
 
 
+def run_default_path(case):
+    import shutil
+    d = lab.df()
+    counters = {'resumed_runs': 0, 'rows_compared': 0}
+    name = 'dflt%d' % case['idx']
+    cfg = {'family': 'default_path', 'checkpoint_path': 'default (.checkpoints in the current directory)', 'cwd_changed_after_import': True}
+    version = {'v': 1}
+    pulls = {'n': 0}
+
+    def src():
+        pulls['n'] += 1
+        for i in range(5):
+            yield {'id': i, 'v': 'version-%d' % version['v']}
+
+    def run():
+        with boot.quiet():
+            return d.Flow(src(), d.checkpoint(name)).results()[0][0]
+    viol = []
+    try:
+        first = run()
+        here = os.path.isdir(os.path.join('.checkpoints', name))
+        if not here:
+            viol.append({'kind': 'checkpoint_location', 'mech': 'default_path/not_under_cwd', 'config': cfg,
+                         'msg': '%r: after the saving run there is no .checkpoints/%s in the current directory %s' % (cfg, name, os.getcwd())})
+        version['v'] = 2
+        second = run()
+        counters['resumed_runs'] += 1
+        counters['rows_compared'] += len(second)
+        if second != first:
+            viol.append({'kind': 'resumed_differs', 'mech': 'default_path/resumed_differs', 'config': cfg,
+                         'msg': '%r: the resuming run returned %r' % (cfg, second[:2])})
+        shutil.rmtree('.checkpoints', ignore_errors=True)
+        third = run()
+        counters['rows_compared'] += len(third)
+        if [r['v'] for r in third] != ['version-2'] * 5:
+            viol.append({'kind': 'stale_after_removal', 'mech': 'default_path/stale_after_removal', 'config': cfg,
+                         'msg': '%r: .checkpoints was removed from the current directory, the next run still returned %r'
+                         % (cfg, third[:2])})
+    except Exception as e:
+        viol.append({'kind': 'run_failed', 'mech': 'run_failed/default_path', 'config': cfg,
+                     'msg': '%r: %s' % (cfg, str(getattr(e, 'cause', e))[:200])})
+    return dict(nontrivial=True, violations=viol, counters=counters,
+                cov={'value_class': {}, 'history': {'default_path': 1}}, sample={'config': cfg})
+
+
 def run_selected(case):
     rng = boot.rng(case['seed'], 'C07', 'selected', case['idx'])
     d = lab.df()
@@ -359,6 +408,8 @@ def run_case(case):
         return run_fieldless(case)
     if case['family'] == 'selected_resources':
         return run_selected(case)
+    if case['family'] == 'default_path':
+        return run_default_path(case)
     if case['family'] == 'c_locale':
         return run_c_locale(case)
     rng = boot.rng(case['seed'], 'C07', case['idx'])
